@@ -44,7 +44,8 @@ def configure(eng):
         if isinstance(k, VObj) and isinstance(obj, VOpaque) and obj.t.eq(st.field(k, '_parse_cache').t) and e.cur_key == KI + '__call__':
             at = st.ghost.get('module_at_parse')
             now = st.field(k, '_module')
-            goal = VBool(True) if at is None else same(now, at)
+            # `is` or `==`: module names are symbols (or None), equal names are the same module
+            goal = VBool(True) if at is None else Or(same(now, at), now == at, at == now)
             e.oblige(f"{e.cur_key}#parse-cache.store-only-effect-free-parses@{e.site_ordinal('pcstore', node)}", st, goal, kind='frame')
         return prev(e, obj, key, v, st, node) if prev else None
     eng.hooks['setitem'] = store_item
